@@ -145,47 +145,13 @@ Definition is_array (o : op) : bool :=
 
 (* ---------------------------------------------------------------- recorded defect classes *)
 
-(* a 16-byte address that appendIP6 prints (not IPv4-mapped) *)
-Definition plain6 (v : option bytes) : option bytes :=
-  match v with
-  | Some b => if Nat.eqb (List.length b) 16 && negb (is4in6 b) then Some b else None
-  | None => None
-  end.
-(* its longest zero run has exactly two groups *)
-Definition ip6_run2 (v : option bytes) : bool :=
-  match plain6 v with
-  | Some b => Nat.eqb (snd (best_run (groups b) O (O, O))) 2
-  | None => false
-  end.
-(* its text does not end in "::" (so appendIP6 writes a transient ':' after the last group) *)
-Definition ip6_trailing_group (v : option bytes) : bool :=
-  match plain6 v with
-  | Some b => let '(s, n) := best_run (groups b) O (O, O) in negb (Nat.leb 2 n && Nat.eqb (s + n) 8)
-  | None => false
-  end.
-Definition is_ip4 (v : option bytes) : bool :=
-  match v with Some b => match to4 b with Some _ => true | None => false end | None => false end.
-
-Inductive kkey : Set := KNone | KIp6Run2 | KIp6ExactFit | KIpArrIp4 | KIpArrRoom | KByteArrNeg.
-
-(* class of the recorded defect the call (index, op) lies in; [panicked]: the model panics on it *)
-Definition known_key (idx : nat) (o : op) (panicked : bool) : kkey :=
-  match o with
-  | OIPSlice n v =>
-      if ip6_run2 v then KIp6Run2
-      else if panicked && ip6_trailing_group v && Nat.eqb (idx + List.length (spec_text o)) BUFSZ
-      then KIp6ExactFit else KNone
-  | OIPArr n vs =>
-      if negb panicked && existsb is_ip4 vs then KIpArrIp4
-      else if existsb ip6_run2 vs then KIp6Run2
-      else if panicked && existsb ip6_trailing_group vs then KIpArrRoom
-      else KNone
-  | OByteArr n v =>
-      let rem := (Z.of_nat BUFSZ - Z.of_nat idx - 1 - Z.of_nat (List.length n) - 2)%Z in
-      if panicked && (rem <=? Z.of_nat (List.length v) * 3)%Z && (rem <=? 7)%Z
-      then KByteArrNeg else KNone
-  | _ => KNone
-  end.
+(* The five classes found on the code as it was (two-group zero run not compressed, transient ':'
+   at an exact fit, IPArray's early return, IPArray's 28+2 guard, ByteArray's negative bound) were
+   repaired in /repo (FIXLOG.md); their refutations are kept on the as-found functions in
+   Proofs/FastlogAsFound.v.  No defect class is recognised on the current code: every deviation
+   from the property is reported. *)
+Inductive kkey : Set := KNone | KReserved.   (* KReserved: no class uses it *)
+Definition known_key (idx : nat) (o : op) (panicked : bool) : kkey := KNone.
 
 (* ---------------------------------------------------------------- vocabulary of the theorems *)
 
